@@ -74,6 +74,11 @@ def run(ctx, deps=True):
                 eqmap.setdefault(f[1], f[2])
             elif f[0] == "eq" and is_const(f[1]) and not is_const(f[2]) and f[2][0] in ("sub", "attr"):
                 eqmap.setdefault(f[2], f[1])
+            elif f[0] == "eq":
+                # int(x) == x: the integer the checker hands back is the value itself
+                for a, b in ((f[1], f[2]), (f[2], f[1])):
+                    if isinstance(a, tuple) and len(a) == 4 and a[0] == "call" and a[1] == "builtin:int" and a[2] == (b,):
+                        eqmap.setdefault(a, b)
         if eqmap:
             calls = [ev[:3] + (tuple(subst(a, eqmap) for a in ev[3]),) + ev[4:] for ev in calls]
         for who, (K, th) in pairs.items():
@@ -147,6 +152,17 @@ def _cause(eng, p, x, T, U, tv, uv, pairs):
     for f in State(facts=facts).closure():
         if f[0] == "eq" and is_const(f[2]) and not is_const(f[1]) and f[1][0] in ("sub", "attr"):
             eqmap.setdefault(f[1], f[2])
+        elif f[0] == "eq":
+            for a, b in ((f[1], f[2]), (f[2], f[1])):
+                if isinstance(a, tuple) and len(a) == 4 and a[0] == "call" and a[1] == "builtin:int" and a[2] == (b,):
+                    eqmap.setdefault(a, b)
+    for ev in flat(p):
+        # int(x) handed to the verifier on a path on which the integrality check failed or has not
+        # happened yet cannot be told from x by its value: compare the verifier's arguments modulo int()
+        if ev[0] == "call" and ev[2] == VSIG:
+            for a in ev[3]:
+                if isinstance(a, tuple) and len(a) == 4 and a[0] == "call" and a[1] == "builtin:int" and len(a[2]) == 1:
+                    eqmap.setdefault(a, a[2][0])
     if eqmap:
         facts = facts | {subst(f, eqmap) for f in facts if f[0] in ("has", "nothas", "ne", "eq")}
     st = State(facts=facts)
